@@ -6,22 +6,23 @@ import "strings"
 // check runs them (quick tier) and reports their instances under their own rule ids, so that a change which breaks the
 // shared condition is reported by every property whose statement it breaks, not only by the rule's home property.
 //
-//	C01 (the handler sees exactly the committed transactions, v1/v2 rows, 4/6-byte ids, partial images, GTID on/off, CRC on/off)
-//	    <- C02 R1-R5 (grouping into transactions), C09 R3/R5/R6 (row splitting, bitmaps, rows-event header),
-//	       C15 R1-R3 (latest table map reaches the cache, rows use the entry of their id), C16 R1 (stripped event, current format)
-//	C03 (labels chain, exact resume points) <- C04 R2/R3 (the cell moves only at an accepted commit and at a rotation)
+//	C01 (the handler sees exactly the committed transactions with every column's name, type and value text; v1/v2 rows,
+//	     4/6-byte ids, partial images, GTID on/off, CRC on/off) is the conjunction of the clause properties: it includes
+//	    <- C02 (grouping), C09 (row splitting), C10-C14 (value text per column type), C15 (table map and metadata),
+//	       C16 (checksum stripping, header and body layouts) whole, C04 R6 (no accepted event skips the dispatch),
+//	       C08 R2/R4 (values are not shared storage)
+//	C03 (labels chain, exact resume points) <- C04 R2/R3/R6 (the cell moves only at an accepted commit and at a rotation; no accepted event skips the dispatch)
 //	C08 (delivered data is private)         <- C02 R4 (the buffer handed to the handler is replaced, not re-sliced)
 //	C10-C14 (value text of a column type)   <- C15 R5 for the column types of that property (per-type metadata layout)
 //	C12 (timestamp text)                    <- C08 R2 (a returned value aliases only the event buffer or fresh memory)
 //	C13 (NULL / empty / absent)             <- C09 R3 of the streamer's image decoders (ordinal / NULL index / offset bookkeeping)
 var propIncludes = map[string][]inc{
 	"C01": {
-		{"C02", map[string]func(string) bool{"C02-R1": nil, "C02-R2": nil, "C02-R3": nil, "C02-R4": nil, "C02-R5": nil}},
-		{"C09", map[string]func(string) bool{"C09-R3": nil, "C09-R5": nil, "C09-R6": nil}},
-		{"C15", map[string]func(string) bool{"C15-R1": nil, "C15-R2": nil, "C15-R3": nil}},
-		{"C16", map[string]func(string) bool{"C16-R1": nil}},
+		{"C02", nil}, {"C09", nil}, {"C10", nil}, {"C11", nil}, {"C12", nil}, {"C13", nil}, {"C14", nil}, {"C15", nil}, {"C16", nil},
+		{"C04", map[string]func(string) bool{"C04-R6": nil}},
+		{"C08", map[string]func(string) bool{"C08-R2": nil, "C08-R4": nil}},
 	},
-	"C03": {{"C04", map[string]func(string) bool{"C04-R2": nil, "C04-R3": nil}}},
+	"C03": {{"C04", map[string]func(string) bool{"C04-R2": nil, "C04-R3": nil, "C04-R6": nil}}},
 	"C08": {{"C02", map[string]func(string) bool{"C02-R4": nil}}},
 	"C10": {{"C15", map[string]func(string) bool{"C15-R5": metaTypes("TypeTiny", "TypeShort", "TypeInt24", "TypeLong", "TypeLongLong", "TypeYear", "TypeFloat", "TypeDouble", "TypeBit", "TypeEnum", "TypeSet", "TypeString")}}},
 	"C11": {{"C15", map[string]func(string) bool{"C15-R5": metaTypes("TypeDecimal", "TypeNewDecimal")}}},
